@@ -15,7 +15,8 @@ namespace LinCode
 (multiply by `(2·d1)^t · q · 2^lam`).  For `d0 ≤ 2·d1`, `0 < d1`, `0 < q` this is equivalent to the
 rational inequality (`Proofs/CalcT.lean`, `boundHolds_iff_rat`). -/
 def boundHolds (lam d0 d1 n q t : Nat) : Bool :=
-  decide (2 * (2 * d1 - d0) ^ t * q * 2 ^ lam + n * (2 * d1) ^ t * 2 ^ lam ≤ (2 * d1) ^ t * q)
+  let bt := (2 * d1) ^ t   -- shared: the powers have tens of thousands of bits for small distances
+  decide (2 * (2 * d1 - d0) ^ t * q * 2 ^ lam + n * bt * 2 ^ lam ≤ bt * q)
 
 /-- least `k ∈ [t, t + fuel)` with `p k` -/
 def findFrom (p : Nat → Bool) : Nat → Nat → Option Nat
@@ -86,8 +87,15 @@ def tLeastFast (lam d0 d1 n q hint : Nat) : Option Nat :=
     let c := searchCand p cap
     if certified p cap c then some c else tLeast lam d0 d1 n q
 
+/-- the cap is active: a `t` exists but `n − 1` openings do not suffice, so `min t n = n`
+(certificate for short codewords, where the least `t` itself is expensive to locate) -/
+def cappedCert (lam d0 d1 n q : Nat) : Bool :=
+  distanceUsable d0 d1 && decide (0 < q) && decide (0 < n) && !noneCert lam d0 d1 n q &&
+    !boundHolds lam d0 d1 n q (n - 1)
+
 def tSpecFast (lam d0 d1 n q hint : Nat) : Option Nat :=
-  (tLeastFast lam d0 d1 n q hint).map (capAt n)
+  if cappedCert lam d0 d1 n q then some n
+  else (tLeastFast lam d0 d1 n q hint).map (capAt n)
 
 /-- Model of `calculate_t::<F>(lam, (d0, d1), n)` with `q = |F|`: `InvalidParameters` for an
 unusable distance or when no `t` exists. `hint` only speeds up the evaluation. -/
